@@ -1,8 +1,8 @@
 // target: src/sync.rs
 // labels: query.* bounds.author_key.* bounds.bykey.* bounds.namespace.* store.get_exact.*
 // tier: quick
-// bound: two authors, keys over {a, ab, b, [61 ff], [61 ff 01], [62]}, a fixed history of 11 inserts incl. two deletion markers and one
-// prefix deletion; every query over kind {flat by author-key, flat by key-author, latest-per-key} x author filter {any, a0, a1} x key filter
+// bound: two authors, keys over {a, ab, b, [61 ff], [61 ff 01], [62]}, a fixed history of 12 inserts incl. three deletion markers and one
+// prefix deletion that removes a longer key (dangling by-key index row in the middle of the key order); every query over kind {flat by author-key, flat by key-author, latest-per-key} x author filter {any, a0, a1} x key filter
 // {any, exact k, prefix p for every k, p in the key universe and [61], [ff]} x direction x include_empty x offset {0,1,2} x limit {none,1,2}
 // compared with the definition of C05 (filter, order, group latest per key over all authors, then author filter, skip, take).
 // Also point lookups (get_exact) against the same reference.
@@ -55,6 +55,8 @@ mod verif_rp_c05_query {
             (0, vec![0x61], 1, false), (1, vec![0x61], 2, false), (0, vec![0x61, 0x62], 3, false), (1, vec![0x61, 0x62], 4, true),
             (0, vec![0x62], 5, false), (1, vec![0x62], 6, false), (0, vec![0x61, 0xff], 7, false), (1, vec![0x61, 0xff, 0x01], 8, false),
             (0, vec![0x61, 0xff, 0x01], 9, true), (1, vec![0x62], 10, true), (0, vec![0x62], 11, false),
+            // prefix deletion that really removes a longer key of the same author ([61 ff 01] of author 1) and leaves its index row behind
+            (1, vec![0x61, 0xff], 12, false),
         ];
         for (a, k, ts, marker) in &hist {
             let (hash, len) = if *marker { (Hash::EMPTY, 0) } else { (Hash::new(b"x"), 1) };
